@@ -26,9 +26,12 @@
      zbus/src/message_stream.rs
         MessageStream::from(&conn)       conn.msg_receiver.activate_cloned(), no rule                               LUnfiltered s
         Stream::poll_next                the receiver's poll_next                                                    LPoll s
-        #[derive(Clone)]                 clones the receiver (same cursor) and the rule; NOTHING is counted          LClone s s2
-        Drop for Inner                   if let Some(rule) = match_rule.take() { conn.queue_remove_match(rule) }     LDrop s
-        AsyncDrop::async_drop(mut self)  let rule = match_rule.take(); drop(self); conn.remove_match(rule).await      LDropStart s, then
+        Inner { match_rule: Option<Arc<OwnedMatchRule>> }  (fix 3c4a83a4)  — [arcs]: one Arc per for_match_rule stream, its holders
+        #[derive(Clone)]                 clones the receiver (same cursor) and the Arc (one more holder)             LClone s s2
+        Drop for Inner                   if let Some(rule) = match_rule.take().and_then(Arc::into_inner)             LDrop s
+                                           { conn.queue_remove_match(rule) }      (only the LAST holder gets the rule back)
+        AsyncDrop::async_drop(mut self)  let rule = match_rule.take().and_then(Arc::into_inner); drop(self);
+                                         if let Some(rule) = rule { conn.remove_match(rule).await }                   LDropStart s, then
                                          (since fix 90a1ccff the receiver is released BEFORE remove_match)            LTaskSubs n / LTaskSender n
         set_max_queued(n)                set_capacity(n) if n > capacity                                             LSetCap s n
      zbus/src/connection/socket_reader.rs
@@ -72,7 +75,7 @@ Record sys := {
   socket : list item;
   incoming : list msg;                 (* ghost: the messages the socket reader has read, in order *)
   dead : list (nat * stream);          (* ghost: dropped streams, as they were *)
-  cloned : bool                        (* ghost: a stream was cloned at some point *)
+  arcs : list (nat * list nat)         (* the Arc<OwnedMatchRule> values that exist: rule, the streams holding it *)
 }.
 
 Definition default_max_queued : nat := 64.
@@ -81,7 +84,7 @@ Definition method_return_cap : nat := 8.
 Definition init : sys :=
   {| chans := [new_chan default_max_queued; new_chan method_return_cap];
      senders := [(KAll, 0); (KRet, 1); (KErr, 1)]; subs := []; streams := []; adds := []; drops := []; tasks := [];
-     reader := RIdle; socket := []; incoming := []; dead := []; cloned := false |}.
+     reader := RIdle; socket := []; incoming := []; dead := []; arcs := [] |}.
 
 (* ---- association lists ---- *)
 Fixpoint lookup {A} (l : list (nat * A)) (k : nat) : option A :=
@@ -120,40 +123,40 @@ Definition del_key (l : list (key * nat)) (k : key) : list (key * nat) := filter
 (* ---- setters ---- *)
 Definition with_chans (s : sys) (x : list (chan item)) : sys :=
   {| chans := x; senders := senders s; subs := subs s; streams := streams s; adds := adds s; drops := drops s; tasks := tasks s;
-     reader := reader s; socket := socket s; incoming := incoming s; dead := dead s; cloned := cloned s |}.
+     reader := reader s; socket := socket s; incoming := incoming s; dead := dead s; arcs := arcs s |}.
 Definition with_senders (s : sys) (x : list (key * nat)) : sys :=
   {| chans := chans s; senders := x; subs := subs s; streams := streams s; adds := adds s; drops := drops s; tasks := tasks s;
-     reader := reader s; socket := socket s; incoming := incoming s; dead := dead s; cloned := cloned s |}.
+     reader := reader s; socket := socket s; incoming := incoming s; dead := dead s; arcs := arcs s |}.
 Definition with_subs (s : sys) (x : list (nat * entry)) : sys :=
   {| chans := chans s; senders := senders s; subs := x; streams := streams s; adds := adds s; drops := drops s; tasks := tasks s;
-     reader := reader s; socket := socket s; incoming := incoming s; dead := dead s; cloned := cloned s |}.
+     reader := reader s; socket := socket s; incoming := incoming s; dead := dead s; arcs := arcs s |}.
 Definition with_streams (s : sys) (x : list (nat * stream)) : sys :=
   {| chans := chans s; senders := senders s; subs := subs s; streams := x; adds := adds s; drops := drops s; tasks := tasks s;
-     reader := reader s; socket := socket s; incoming := incoming s; dead := dead s; cloned := cloned s |}.
+     reader := reader s; socket := socket s; incoming := incoming s; dead := dead s; arcs := arcs s |}.
 Definition with_adds (s : sys) (x : list (nat * addst)) : sys :=
   {| chans := chans s; senders := senders s; subs := subs s; streams := streams s; adds := x; drops := drops s; tasks := tasks s;
-     reader := reader s; socket := socket s; incoming := incoming s; dead := dead s; cloned := cloned s |}.
+     reader := reader s; socket := socket s; incoming := incoming s; dead := dead s; arcs := arcs s |}.
 Definition with_drops (s : sys) (x : list (nat * rmpc)) : sys :=
   {| chans := chans s; senders := senders s; subs := subs s; streams := streams s; adds := adds s; drops := x; tasks := tasks s;
-     reader := reader s; socket := socket s; incoming := incoming s; dead := dead s; cloned := cloned s |}.
+     reader := reader s; socket := socket s; incoming := incoming s; dead := dead s; arcs := arcs s |}.
 Definition with_tasks (s : sys) (x : list (nat * rmpc)) : sys :=
   {| chans := chans s; senders := senders s; subs := subs s; streams := streams s; adds := adds s; drops := drops s; tasks := x;
-     reader := reader s; socket := socket s; incoming := incoming s; dead := dead s; cloned := cloned s |}.
+     reader := reader s; socket := socket s; incoming := incoming s; dead := dead s; arcs := arcs s |}.
 Definition with_reader (s : sys) (x : rstate) : sys :=
   {| chans := chans s; senders := senders s; subs := subs s; streams := streams s; adds := adds s; drops := drops s; tasks := tasks s;
-     reader := x; socket := socket s; incoming := incoming s; dead := dead s; cloned := cloned s |}.
+     reader := x; socket := socket s; incoming := incoming s; dead := dead s; arcs := arcs s |}.
 Definition with_socket (s : sys) (x : list item) : sys :=
   {| chans := chans s; senders := senders s; subs := subs s; streams := streams s; adds := adds s; drops := drops s; tasks := tasks s;
-     reader := reader s; socket := x; incoming := incoming s; dead := dead s; cloned := cloned s |}.
+     reader := reader s; socket := x; incoming := incoming s; dead := dead s; arcs := arcs s |}.
 Definition with_incoming (s : sys) (x : list msg) : sys :=
   {| chans := chans s; senders := senders s; subs := subs s; streams := streams s; adds := adds s; drops := drops s; tasks := tasks s;
-     reader := reader s; socket := socket s; incoming := x; dead := dead s; cloned := cloned s |}.
+     reader := reader s; socket := socket s; incoming := x; dead := dead s; arcs := arcs s |}.
 Definition with_dead (s : sys) (x : list (nat * stream)) : sys :=
   {| chans := chans s; senders := senders s; subs := subs s; streams := streams s; adds := adds s; drops := drops s; tasks := tasks s;
-     reader := reader s; socket := socket s; incoming := incoming s; dead := x; cloned := cloned s |}.
-Definition with_cloned (s : sys) (x : bool) : sys :=
+     reader := reader s; socket := socket s; incoming := incoming s; dead := x; arcs := arcs s |}.
+Definition with_arcs (s : sys) (x : list (nat * list nat)) : sys :=
   {| chans := chans s; senders := senders s; subs := subs s; streams := streams s; adds := adds s; drops := drops s; tasks := tasks s;
-     reader := reader s; socket := socket s; incoming := incoming s; dead := dead s; cloned := x |}.
+     reader := reader s; socket := socket s; incoming := incoming s; dead := dead s; arcs := x |}.
 
 Definition chan_at (s : sys) (c : nat) : chan item := nth c (chans s) (new_chan 1).
 Definition set_chan (s : sys) (c : nat) (x : chan item) : sys := with_chans s (upd (chans s) c x).
@@ -217,6 +220,32 @@ Inductive label :=
   | LUnfiltered (sid : nat) | LPoll (sid : nat) | LDrop (sid : nat) | LClone (sid sid2 : nat) | LSetCap (sid n : nat)
   | LDropStart (sid : nat) | LDropSubs (sid : nat) | LDropSender (sid : nat)
   | LTaskSubs (n : nat) | LTaskSender (n : nat).
+
+(* ---- the shared rule (Arc) of a stream and its clones ---- *)
+Definition holds (sid : nat) (p : nat * list nat) : bool := existsb (Nat.eqb sid) (snd p).
+(* which Arc the stream holds: the position of the first entry that lists it *)
+Fixpoint idx_of (a : list (nat * list nat)) (sid : nat) : option nat :=
+  match a with
+  | [] => None
+  | p :: r => if holds sid p then Some 0 else option_map S (idx_of r sid)
+  end.
+Fixpoint remove_nat (x : nat) (l : list nat) : list nat :=
+  match l with [] => [] | y :: r => if Nat.eqb x y then remove_nat x r else y :: remove_nat x r end.
+Definition leave (a : list (nat * list nat)) (sid : nat) : list (nat * list nat) :=
+  map (fun p => (fst p, remove_nat sid (snd p))) a.
+(* Clone: one more holder of the Arc the original holds (a stream without rule holds none) *)
+Definition join (a : list (nat * list nat)) (sid sid2 : nat) : list (nat * list nat) :=
+  map (fun p => if holds sid p then (fst p, snd p ++ [sid2]) else p) a.
+(* match_rule.take().and_then(Arc::into_inner): the holder lets go; true = it was the last one and gets the rule back *)
+Definition release (a : list (nat * list nat)) (sid : nat) : list (nat * list nat) * bool :=
+  match idx_of a sid with
+  | Some i => let a1 := leave a sid in
+              match nth_error a1 i with
+              | Some (_, []) => (del_nth a1 i, true)
+              | _ => (a1, false)
+              end
+  | None => (a, true)
+  end.
 
 (* the stream value goes away: its receiver is dropped, the record moves to [dead] *)
 Definition bury (s : sys) (sid : nat) (st : stream) : sys :=
@@ -313,7 +342,7 @@ Definition step (l : label) (s : sys) : option sys :=
                   let s1 := set_chan s c (subscribe sid ch1) in
                   let s2 := with_subs s1 (put (subs s1) r {| e_ref := S (e_ref e); e_ch := c |}) in
                   let st := {| s_rule := Some r; s_ch := c; s_from := seen s c; s_got := [] |} in
-                  Some (with_adds (with_streams s2 (put (streams s2) sid st)) (del (adds s2) sid))
+                  Some (with_arcs (with_adds (with_streams s2 (put (streams s2) sid st)) (del (adds s2) sid)) (arcs s ++ [(r, [sid])]))
               | None =>
                   let c := length (chans s) in
                   let capacity := match a_q a with Some n => n | None => default_max_queued end in
@@ -339,8 +368,8 @@ Definition step (l : label) (s : sys) : option sys :=
                   Some (with_adds (with_subs (set_chan s c (drop_rcv sid (chan_at s c))) (del (subs s) r)) (del (adds s) sid))
               | _ =>
                   let st := {| s_rule := Some r; s_ch := c; s_from := seen s c; s_got := [] |} in
-                  Some (with_adds (with_streams (with_senders s (senders s ++ [(KRule r, c)])) (put (streams s) sid st))
-                                  (del (adds s) sid))
+                  Some (with_arcs (with_adds (with_streams (with_senders s (senders s ++ [(KRule r, c)])) (put (streams s) sid st))
+                                             (del (adds s) sid)) (arcs s ++ [(r, [sid])]))
               end
           | _ => None
           end
@@ -367,15 +396,21 @@ Definition step (l : label) (s : sys) : option sys :=
       match lookup (streams s) sid, lookup (drops s) sid with
       | Some st, None =>
           let s1 := bury s sid st in
-          Some (match s_rule st with Some r => with_tasks s1 (tasks s1 ++ [(r, R0)]) | None => s1 end)
+          Some (match s_rule st with
+                | Some r => match release (arcs s) sid with
+                            | (a', true) => with_arcs (with_tasks s1 (tasks s1 ++ [(r, R0)])) a'
+                            | (a', false) => with_arcs s1 a'
+                            end
+                | None => s1
+                end)
       | _, _ => None
       end
   | LClone sid sid2 =>
       match lookup (streams s) sid, lookup (drops s) sid with
       | Some st, None =>
           if fresh s sid2 then
-            Some (with_cloned (with_streams (set_chan s (s_ch st) (clone_rcv sid sid2 (chan_at s (s_ch st))))
-                                            (put (streams s) sid2 st)) true)
+            Some (with_arcs (with_streams (set_chan s (s_ch st) (clone_rcv sid sid2 (chan_at s (s_ch st))))
+                                          (put (streams s) sid2 st)) (join (arcs s) sid sid2))
           else None
       | _, _ => None
       end
@@ -390,7 +425,13 @@ Definition step (l : label) (s : sys) : option sys :=
           (* the receiver goes first (drop(self)), then remove_match(rule) runs — the same call that Drop spawns as a task;
              who polls it (the async_drop future or the executor) makes no difference to what it does *)
           let s1 := bury s sid st in
-          Some (match s_rule st with Some r => with_tasks s1 (tasks s1 ++ [(r, R0)]) | None => s1 end)
+          Some (match s_rule st with
+                | Some r => match release (arcs s) sid with
+                            | (a', true) => with_arcs (with_tasks s1 (tasks s1 ++ [(r, R0)])) a'
+                            | (a', false) => with_arcs s1 a'
+                            end
+                | None => s1
+                end)
       | _, _ => None
       end
   | LDropSubs sid =>
